@@ -49,6 +49,88 @@ CHECKS = {
         "AST-level lock-coverage analysis in translator/py2lean.py; forced switches stand in for real preemption.",
    technique="Lean 4 invariant proof over all schedules + source-derived lock-coverage obligations + forced-interleaving harness",
    design="6 C18"),
+ "C02": dict(
+   text="Lean 4 proof: every asynkit wrapper (coro_iter, CoroStart.__await__/as_coroutine/coro_await/athrow/aclose, awaitmethod, "
+        "awaitmethod_iter, Monitor._asend/aawait without OOB, BoundMonitor) is modelled line by line as a transformer of an "
+        "arbitrary inner coroutine object; for every inner object (hence every coroutine body), every driver sequence over "
+        "send/throw/close and every stack depth, one step and the whole trace of the wrapper equal those of PEP-380 delegation "
+        "(W_step_eq, W_trace_eq, nativeAwait_congr, stack_trace_eq by induction), yielded objects pass through unchanged and a "
+        "held Future is re-yielded with its handshake flag set. Tied to the code by running generated async-def bodies through "
+        "the real wrappers, CPython's own `await` (the oracle) and the Lean driver.",
+   note="Trusted: Lean kernel + {propext, Quot.sound}; CPython's coroutine-object envelope and PEP 380 are modelled "
+        "(Model/Proto.lean), validated against the interpreter by the correspondence stream; contexts and eager are C04/C01.",
+   technique="Lean 4 simulation proof (wrapper = native await) + differential correspondence against CPython's await",
+   design="6 C02"),
+ "C04": dict(
+   text="Lean 4 proof over bodies with an environment of ContextVars: for every body, supplied/caller mappings and driver "
+        "sequence over send/throw/athrow/aclose/close/sync-throw, every resumption of the coroutine runs with the supplied "
+        "mapping current, the caller's mapping is untouched and the supplied Context ends equal to the body's last view "
+        "(ctx_every_segment, ctx_caller_noninterference); context=None shares the caller's mapping exactly like a native await "
+        "(ctx_none_native, by simulation); eager uses a private copy. Four decide-checked witnesses show the pre-fix code "
+        "violated it. Correspondence: generated bodies x driver sequences x {context given, None, eager}; oracle reads the "
+        "real ContextVars per segment.",
+   note="Trusted: Lean kernel + {propext, Quot.sound}; contextvars.Context.run modelled as swap-in/write-back; the "
+        "'empty Context is falsy' defect is covered by oracle+corpus only (a mapping has no emptiness in the model).",
+   technique="Lean 4 invariant/simulation proof + differential correspondence with real ContextVars",
+   design="6 C04"),
+ "C05": dict(
+   text="Lean 4 proof: await_sync on a body that finishes without yielding returns/raises exactly what native delegation does "
+        "with the same inner-resume trace (awaitSync_complete, nested to any depth); if the body yields, SynchronousError is "
+        "raised, chained to the outcome of throwing SynchronousAbort at the suspension point, and the coroutine is finished "
+        "(awaitSync_abort under the explicit NoYieldAfterAbort predicate, with theorems for the excluded cases); the awaited "
+        "object's state and handshake flag are left untouched (awaitSync_leaves_awaited); aiter_sync equals async iteration. "
+        "Correspondence and oracle: generated bodies vs native runs, coro_is_finished, __cause__ type, a later await of the "
+        "blocked-on Future from an ordinary Task.",
+   note="Trusted: Lean kernel + {propext, Quot.sound}; Proto envelope modelled; async iterables modelled as a Body per __anext__.",
+   technique="Lean 4 proof over arbitrary bodies + differential correspondence against native execution",
+   design="6 C05"),
+ "C11": dict(
+   text="Lean 4 proof on the wait-for graph model (Model/PrioGraph): on acyclic (ranked) graphs effective priority is fuel-"
+        "independent and equals the minimum own priority over all tasks transitively waiting on locks held "
+        "(eff_closed_form), the holder is at least as urgent as every waiter along chains of any length "
+        "(holder_at_least_as_urgent), and it falls back when waiters leave (eff_falls_back); inherit_immediate is proved for "
+        "direct runnable holders (_partial: holders reached through a chain of lock-blocked tasks). Tie: trace acceptance - "
+        "the real PriorityLock/PriorityTask run one ready handle at a time, every event replayed by the Lean lock model; "
+        "oracle: an independent wait-for-graph recomputation of every effective priority and the inversion bound on the "
+        "priority loop.",
+   note="Trusted: Lean kernel + standard axioms; asyncio Task/Future kernel modelled inside Model/Lock.lean; acyclicity "
+        "(fixed lock order) is an explicit hypothesis; boosting switched off in these runs (C19's business).",
+   technique="Lean 4 proof on wait-for graphs + trace acceptance of real executions",
+   design="6 C11"),
+ "C12": dict(
+   text="Lean 4 proof on the lock model: the future set on release/give-up belongs to the (key, arrival)-minimal waiter "
+        "(handover_most_urgent), no second hand-over while one is in flight, plain tasks are FIFO, a waiter is never "
+        "overtaken by one that was strictly less urgent throughout, re-keying keeps the arrival rank and sets the key to the "
+        "current effective priority (propagate_rekeys_to_current_eff; the global key invariant is _partial and compared on "
+        "every real trace instead). Tie: trace acceptance on both loops; oracle: at each real hand-over the receiver is the "
+        "(recomputed effective priority, arrival)-minimal waiter.",
+   note="Trusted: Lean kernel + standard axioms; waiter queue modelled as an ordered list (the container is C17's); "
+        "Task/Future kernel modelled.",
+   technique="Lean 4 invariant proofs on the lock transition system + trace acceptance",
+   design="6 C12"),
+ "C13": dict(
+   text="Lean 4 proof: a 13-clause invariant (lock_inv) holds in every reachable state of the PriorityLock transition system "
+        "under every interleaving of worker steps, cancel, task_throw and task_interrupt with any exception, delivered while "
+        "waiting, woken-not-run or holding: locked iff owner, at most one holder, holding/waiting_on consistent, and a free "
+        "lock with waiters always has a wake-up in flight (wake_in_flight); quiescent states are clean; resuming any queued "
+        "waiter shrinks the queue (progress_partial: the temporal statement over fair executions is not formalised). Tie: "
+        "trace acceptance (every real event enabled in the model, observations equal) on the stock and the priority loop; "
+        "oracle: holder counter, wake-in-flight after every handle, all workers finish, no exception in a never-faulted worker.",
+   note="Trusted: Lean kernel + standard axioms; asyncio Task.__step/__wakeup/cancel and Future modelled; priorities of "
+        "waiters as an ordered list.",
+   technique="Lean 4 invariant proof over all interleavings and fault placements + trace acceptance",
+   design="6 C13"),
+ "C20": dict(
+   text="Lean 4 proof by exhaustive finite case analysis (the abstraction kind x phase x on-stack is finite and complete): "
+        "for coroutines, generator-based coroutines and async generators exactly one of new/suspended/finished/executing "
+        "holds and it is the true one (helpers_exact), every drive history stays inside the table (reachable_phases) and the "
+        "helpers track ground truth computed from the history itself (helpers_track_history). Correspondence: real objects of "
+        "the three kinds driven through histories (send/throw/close/asend/athrow/aclose, abandoned asend awaitables), "
+        "observed before/after every step and from inside the running body.",
+   note="Trusted: Lean kernel + {propext, Quot.sound}; the table of attributes CPython 3.12 exposes per kind and phase is "
+        "modelled and validated by the correspondence; other interpreter versions would show up as disagreements.",
+   technique="Lean 4 exhaustive case proof + differential correspondence with live coroutine objects",
+   design="6 C20"),
 }
 
 def main():
